@@ -95,6 +95,14 @@ D = {
  'C01-reader-moves-and-barrier-skips': ('C01', 'read() moves once to the current slot after a generation change; the barrier waits for the old slot only', 'the generation switched twice inside one read(), then a third write'),
  'C10-enqueue-aba': ('C10', 'enqueue hoists the free-position search out of its CAS loop and redoes it only if the head index changed', 'two handlers of one signal overlapping and a full turn of the ring: ABA on the head index'),
  'C10-constructor-duplicates': ('C10', 'add_signal split into a checking wrapper and register_new; the constructor calls register_new directly', 'a signal listed twice in the constructor\'s set: two records per delivery'),
+ 'C06-default-four-slots': ('C06', 'impl Default for Channel composes the empty-queue word itself with 1..SLOTS (slot 5 in neither queue)', 'a channel built through Default (Box::default() in WithRawSiginfo::init) and five values outstanding'),
+ 'C06-owed-guard-temporary': ('C06', 'a drop guard hands the slot back; recv builds it as a temporary, so the slot is back in `empty` before take()', 'a completely full channel and a send between the guard\'s drop and the take'),
+ 'C07-dequeue-stale-head': ('C07', 'dequeue hoists head and emptiness test out of its retry loop (independent rediscovery)', 'two dequeuers on one queue'),
+ 'C07-ptr-read-no-clear': ('C07', 'send uses ptr::write, recv uses ptr::read (the cell is not cleared)', 'send, recv, drop the channel: the free cell still holds the value and it is dropped again with the array'),
+ 'C04-detect-drops-siginfo-flag': ('C04', 'Prev::detect masks sa_flags with a list that lacks SA_SIGINFO', 'a previous three-argument handler and a delivery inside the first-registration window (fallback path)'),
+ 'C04-fallback-guard-scope': ('C04', 'a guard that clears the fallback lives in the Vacant arm and drops before the publication', 'a delivery between the guard\'s drop and the pointer swap: previous handler called 0 times'),
+ 'C11-has-signals-reads-chunks': ('C11', 'has_signals reads 64 bytes at a time and reads again after a full buffer', '63 undrained deliveries and close() before the read: the close byte fills the buffer, the second read blocks'),
+ 'C11-consulted-means-pending': ('C11', 'poll_pending returns None when closed after the callback said true; poll_signal answers Pending whenever the callback was consulted', 'close() between the two checks with the callback answering "available"'),
  'C18-unregister-read-then-write': ('C18', 'unregister looks the id up under a read guard that is still held while write() blocks', 'two mutators: one holds the mutex before its barrier\'s first check, the other\'s unregister has incremented a reader slot and blocks on the mutex'),
 }
 for name, (prop, change, needs) in D.items():
